@@ -10,7 +10,7 @@
 //     have a frame inside the library (C19).  Built with -race the same scenarios are the
 //     failing-input search of C20.
 //
-// usage: blackbox -scenario prio2|simple2|prio1|simple1|join|limit|alone|faulty|dynamic|all -tier T -out DIR
+// usage: blackbox -scenario prio2|simple2|prio1|simple1|join|joinshared|limit|alone|faulty|dynamic|all -tier T -out DIR
 package main
 
 import (
@@ -34,6 +34,7 @@ type bb struct {
 	// goroutines already reported as leaked: reported once, not waited for again
 	reported map[string]bool
 	counts   map[string]int
+	thorough bool
 }
 
 // cycle: the modes of a scenario are taken in turn, so that even the quick tier runs each
@@ -123,7 +124,7 @@ func main() {
 		os.Exit(2)
 	}
 	w := px.NewWriter(*out)
-	b := &bb{w: w, r: rand.New(rand.NewSource(px.Seed())), reported: map[string]bool{}, counts: map[string]int{}}
+	b := &bb{w: w, r: rand.New(rand.NewSource(px.Seed())), reported: map[string]bool{}, counts: map[string]int{}, thorough: *tier == "thorough"}
 	reps := *n
 	if reps == 0 {
 		reps = 7 // >= the number of modes of any scenario (see cycle)
@@ -203,6 +204,10 @@ func main() {
 		if all || want["join"] {
 			b.cur = "join"
 			b.scenarioJoin()
+		}
+		if want["joinshared"] || (all && i%3 == 0) {
+			b.cur = "joinshared"
+			b.scenarioJoinShared()
 		}
 		if all || want["limit"] {
 			b.cur = "limit"
